@@ -260,6 +260,11 @@ func c01PackageName(src string) string {
 // inputs of fixed defects: they must stay fixed (two files of one package: a raw string in the
 // partner spans the line numbers of this file's blank lines)
 var c01Regress = []c01Input{
+	// fix 3dd4b07: a "\n" decoration began its line at the end of the preceding node
+	{Src: "package a\n\nfunc f(\n\ta int,\n\tb string,\n\t/* c */) {\n}\n", Entry: "parse-print"},
+	{Src: "package a\n\nimport (\n\t\"fmt\"\n\t\"os\"\n)\n\nfunc f(\n\ta int,\n\tb string,\n\t/* c */) {\n\tfmt.Println(os.Args)\n}\n", Entry: "parse-print"},
+	{Src: "package a\n\nfunc f() (*T, error) {\n\treturn &T{\n\t\tA: 1,\n\t}, nil\n\t// not reached\n}\n", Entry: "decorator-restorer"},
+	{Src: "package a\n\nfunc (s byName) Len() int      { return len(s) }\nfunc (s byName) Swap(i, j int) { s[i], s[j] = s[j], s[i] }\n\n// TODO: more\n", Entry: "parse-print"},
 	{Src: "package a\n\nfunc F() {\n\tx := 1\n\n\ty := 2\n\n\t_, _ = x, y\n}\n", Entry: "parsedir-package"},
 	{Src: "package a\n\nfunc F() {}\n\n// trailing a\n", Entry: "parsedir-package"},
 	{Src: "package a\n\n//go:generate x\n//go:generate y\n", Entry: "parsedir-package"},
